@@ -2,7 +2,7 @@
     Client/Mux.v.  The Mux model is run under one canonical schedule (every
     schedule gives the same outcome: MuxProofs); the real runs are concurrent. *)
 From Coq Require Import NArith Arith List Bool.
-From P9V Require Import Client.Pool Client.Mux.
+From P9V Require Import Client.Pool Client.Mux Client.Fids.
 Import ListNotations.
 Open Scope nat_scope.
 
@@ -15,14 +15,18 @@ Inductive sitem :=
 | SClose                  (* closes the connection *)
 | SShort (i : nat).       (* header of a reply to call i, then the connection closes *)
 
-Inductive obs := OOk | OForeign | OErr | OHang.
+Inductive obs := OOk | OForeign | OErr | OHang | OPanic.
 
 (** calls started together (index, does its send fail), then what the server does *)
 Definition phase := (list (nat * bool) * list sitem)%type.
 
 Inductive c10case :=
 | CPool (start limit : N) (ops : list pool_op) (results : list (option N))
-| CBatch (n : nat) (phases : list phase) (outcomes : list obs).
+| CBatch (n : nat) (phases : list phase) (outcomes : list obs)
+(* a fixed schedule forced by the harness (gated transport): the trace of model actions and what each call returned *)
+| CTrace (n : nat) (tr : list action) (outcomes : list obs)
+(* binding requests / clunks against a scripted server: the fid each binding request carried *)
+| CFids (evs : list fev) (fids : list (option N)).
 
 Definition tag_of (i : nat) : nat := S i.
 
@@ -33,7 +37,7 @@ Fixpoint find_idx (f : tstate -> bool) (l : list tstate) (i : nat) : option nat 
   end.
 
 Definition try_step (m : mst) (a : action) : mst :=
-  match step true true m a with Some m' => m' | None => m end.
+  match step true true true m a with Some m' => m' | None => m end.
 
 Definition feed (m : mst) (j : nat) (it : sitem) : mst :=
   match it with
@@ -42,9 +46,9 @@ Definition feed (m : mst) (j : nat) (it : sitem) : mst :=
   | SWrong i => try_step m (AFrame j (tag_of i) false)
   | SGarbage | SClose => try_step m (ARecvErr j)
   | SShort i =>
-      match step true true m (AFrame j (tag_of i) true) with
+      match step true true true m (AFrame j (tag_of i) true) with
       | Some m' => match get (thr m') j with
-                   | TLooked _ _ _ _ => try_step m' (ABody j false)
+                   | TLooked _ _ _ _ _ => try_step m' (ABody j false)
                    | _ => m'                       (* unknown tag: already broadcast *)
                    end
       | None => m
@@ -85,7 +89,7 @@ Fixpoint run_phases (m : mst) (ps : list phase) : mst :=
 
 Definition obs_matches (st : tstate) (o : obs) : bool :=
   match st, o with
-  | TDone _ _ (ROk _ _), OOk => true
+  | TDone _ _ (ROk _ _ _), OOk => true
   | TDone _ _ RFail, OErr => true
   | _, _ => false
   end.
@@ -113,6 +117,25 @@ Definition agrees (c : c10case) : bool :=
       end
   | CBatch n phases outcomes =>
       all2 obs_matches (thr (run_phases (init n) phases)) outcomes
+  | CTrace n tr outcomes =>
+      match run true true true (init n) tr with
+      | Some m => all2 obs_matches (thr m) outcomes
+      | None => false
+      end
+  | CFids evs fids =>
+      all2 opt_eqb (map fst (fid_run true (mkpool [] 1 4294967295) [] [] evs)) fids
+  end.
+
+(** replay of the server's bindings over the OBSERVED fids: none is handed out while bound *)
+Fixpoint fids_obs_ok (bound : list N) (evs : list fev) (fids : list (option N)) : bool :=
+  match evs, fids with
+  | [], _ => true
+  | FBind o :: r, Some f :: rf =>
+      negb (mem f bound) && negb (f =? 4294967295)%N &&
+      fids_obs_ok (match o with BOk | BLost true => f :: bound | _ => bound end) r rf
+  | FBind _ :: r, None :: rf => fids_obs_ok bound r rf
+  | FClunk f ok :: r, _ => fids_obs_ok (if ok then remove1 f bound else bound) r fids
+  | _, _ => false
   end.
 
 (** the property on the observed allocator results alone: replay Get/Put over the observed values *)
@@ -148,6 +171,8 @@ Definition property_holds (c : c10case) : bool :=
   | CBatch _ phases outcomes =>
       forallb (fun o => match o with OOk | OErr => true | _ => false end) outcomes &&
       forallb (fun i => match nth i outcomes OHang with OOk => true | _ => false end) (must_be_ok phases)
+  | CTrace _ _ outcomes => forallb (fun o => match o with OOk | OErr => true | _ => false end) outcomes
+  | CFids evs fids => fids_obs_ok [] evs fids
   end.
 
 Fixpoint failing (f : c10case -> bool) (i : nat) (l : list c10case) : list nat :=
@@ -161,7 +186,7 @@ Definition property_failures (l : list c10case) : list nat := failing property_h
 
 (** sanity of the canonical scheduler: three calls answered in reverse order, then a close *)
 Example drive_ex :
-  map (fun st => match st with TDone _ _ (ROk _ _) => 1 | TDone _ _ RFail => 2 | _ => 0 end)
+  map (fun st => match st with TDone _ _ (ROk _ _ _) => 1 | TDone _ _ RFail => 2 | _ => 0 end)
       (thr (run_phases (init 4) [([(0, false); (1, false); (2, false)], [SReply 2; SReply 0; SClose]); ([(3, true)], [])]))
   = [1; 2; 1; 2].
 Proof. vm_compute. reflexivity. Qed.
